@@ -10,7 +10,7 @@ namespace seq {
 static uint64_t g_mal_calls = 0, g_mal_overflow = 0, g_mal_toolarge = 0, g_mal_badalign = 0, g_mal_posix = 0, g_mal_new = 0, g_mal_between = 0, g_mal_states = 0, g_mal_realloc_checked = 0;
 // In a C build of mimalloc (all our variants) `std::get_new_handler` binds to mimalloc's own weak stub that returns NULL, so the
 // throwing `mi_new*` forms abort() by design on failure; they are exercised only when a handler can be installed.
-static const bool g_has_new_handler = false;
+static const bool g_has_new_handler = true;
 static jmp_buf g_nh_jmp;
 static volatile int g_nh_calls = 0;
 static volatile int g_nh_limit = 3;
